@@ -38,6 +38,8 @@ CLAIMED = {
          "Shows that block pruning accepts every block that can contain a match for each operator (also after refactoring into a generic helper), that full-enclosure means what its name says, that the SST and agile-tree fast paths can only be chosen for match-all queries over fully enclosed segments without non-ingest statistics, and that hand-over between open and rotated segments keeps every segment visible. Equality of results across layouts, bloom/PQMR contents and parallel merge are not decided."),
  "C04": ("§3 C04", "static analysis: forward dataflow of tagged-union tag knowledge per access path over the SSA CFG (TAGUNION), truth-table implication check of the SST gate formula, writer/reader version-byte agreement",
          "For every function that tests the tag of a NumTypeEnclosure (the running sum/min/max representation) the check shows on all paths that each member is read only where the tag is known to select it, so merges between integer and float partial aggregates cannot drop the accumulated part; the pre-computed statistics fast path is shown to be gated on the conditions under which it is exact. Numeric results, bucket boundaries and per-measure slot bookkeeping are not decided."),
+ "C05": ("§3 C05", "static analysis: collection of every comparator function value from the sort/merge call sites and static call-graph reachability to tolerance-equality functions (recognised by their |a-b| < eps shape), use-site analysis of the raw end time in Searcher.fetchRRCs (clamp operands / sort-mode dominance)",
+         "All 90+ ordering functions of the repository are collected from their call sites and shown not to reach a tolerance equality, the structural cause of out-of-order neighbours for close values; the two sort paths are shown to share one comparison; the newest-first streaming search is shown to release records only up to the segment cut-off on every time-ordered path. The merge of overlapping blocks, limits and pagination as outcomes are not decided."),
 }
 
 NOT_APPLICABLE = {
